@@ -73,9 +73,30 @@ type Bad = (String, String);
 /// n-th frame is n+1 (equilibrium 0 is therefore distinguishable). Checks
 /// every step from `check_from` on. Returns the reference state.
 fn run_history(acts: &[Act], src_len: usize, check_from: usize) -> Result<(Ref, Vec<usize>, usize), Bad> {
+    // a panic anywhere in the bus under test (an overflow check, a debug assertion) is a violation
+    match catch(|| run_history_inner(acts, src_len, check_from)) {
+        Ok(r) => r,
+        Err(p) => Err(("bus.panic".into(), format!("history of {} actions ending in {:?} (source of {src_len} frames): panicked: {p}", acts.len(), acts[acts.len().saturating_sub(8)..].iter().map(|a| a.name()).collect::<Vec<_>>()))),
+    }
+}
+
+fn run_history_inner(acts: &[Act], src_len: usize, check_from: usize) -> Result<(Ref, Vec<usize>, usize), Bad> {
     let (probe, c) = Probe::new((0..src_len).map(|n| (n + 1) as f64).collect());
     let bus = probe.bus();
-    let mut outs: Vec<Option<Output<Probe<f64>>>> = Vec::new();
+    // if the bus panics, the remaining outputs must not be dropped while unwinding (their Drop runs
+    // the same bus code and a second panic would abort the process): leak them instead
+    struct LeakOnPanic<T>(Vec<Option<T>>);
+    impl<T> Drop for LeakOnPanic<T> {
+        fn drop(&mut self) {
+            if std::thread::panicking() {
+                for o in self.0.drain(..) {
+                    std::mem::forget(o);
+                }
+            }
+        }
+    }
+    let mut outs_guard: LeakOnPanic<Output<Probe<f64>>> = LeakOnPanic(Vec::new());
+    let outs = &mut outs_guard.0;
     let mut r = Ref::default();
     for (step, &a) in acts.iter().enumerate() {
         let tag = || {
@@ -139,6 +160,16 @@ fn run_history(acts: &[Act], src_len: usize, check_from: usize) -> Result<(Ref, 
     }
     let pend: Vec<usize> = outs.iter().flatten().map(|o| o.pending_frames()).collect();
     let b = bus.verif_backlog_len();
+    // drop the remaining outputs one at a time: a panic in one Drop must not meet a second one
+    // while unwinding (that would abort the process instead of reporting the case)
+    while let Some(o) = outs.pop() {
+        if let Err(p) = catch(move || drop(o)) {
+            for rest in outs.drain(..) {
+                std::mem::forget(rest);
+            }
+            return Err(("bus.panic".into(), format!("history of {} actions, then dropping the remaining outputs: panicked: {p}", acts.len())));
+        }
+    }
     Ok((r, pend, b))
 }
 
@@ -355,6 +386,7 @@ impl Model for BusModel {
 }
 
 fn main() {
+    let _final_guard = common::FinalGuard::new();
     let ctx: &'static Ctx = Ctx::leak("C13", "release");
     if let Some(v) = ctx.replay_case() {
         let _guard_scope = guard::scoped(&v.to_string());
